@@ -32,8 +32,8 @@ func esc(s string) string {
 	s = strings.ReplaceAll(s, "\\", "\\\\")
 	s = strings.ReplaceAll(s, "\t", "\\t")
 	s = strings.ReplaceAll(s, "\n", "\\n")
-	if len(s) > 6000 {
-		s = s[:6000] + "...(truncated)"
+	if len(s) > 30000 {
+		s = s[:30000] + "...(truncated)"
 	}
 	return s
 }
@@ -280,6 +280,11 @@ func main() {
 			out.Close(args.Stats)
 			return
 		}
+		if strings.Contains(prog, nextText) {
+			s.replayHistory(prog)
+			out.Close(args.Stats)
+			return
+		}
 		s.fresh()
 		r := s.eval(prog, []string{"stream:replay"})
 		fmt.Fprintf(os.Stderr, "replay: class=%s depths=%s\n", r.Class, depths(s.env))
@@ -342,6 +347,8 @@ func main() {
 	// ---- (xi) the self call in every position; (xii) source / include / Go API entry points ----
 	s.tailMatrix(args.Tier == "thorough")
 	s.apiCalls()
+	// ---- (xiii) histories of rejected / failing / successful texts against the resident-state model ----
+	s.residentHistories(rng.Fork(), args.Tier == "thorough")
 
 	// ---- (ii)+(iii) generated programs in long histories ----
 	nhist, perHist := 12, 60
@@ -404,6 +411,7 @@ func main() {
 	out.Extra["panic_samples"] = panicSamples
 	out.Extra["error_kinds"] = errKinds
 	out.Extra["tests_zy_files"] = nfiles
+	out.Extra["resident_history_fates"] = fateCount
 	out.Extra["opcode_histogram"] = c.opcount
 	out.Extra["unknown_instruction_types"] = c.unknown
 	out.Extra["high_water_depths"] = highWater
